@@ -339,11 +339,7 @@ theorem http_step (M : StoreModel σ) (env : HttpParse.Env) (opts : ParseOpts) (
           obtain ⟨ctx, resp⟩ := cr
           simp only
           unfold afterAnnounce
-          cases hr : runAnn hooks.postAnn req 0 ctx resp with
-          | mk plog pres =>
-            cases pres with
-            | error e => exact hg
-            | ok cr' => exact good_swarmInteraction M now m hg _ req (parseAnnounce_peerOK env uri opts req hp)
+          exact good_swarmInteraction M now m hg _ req (parseAnnounce_peerOK env uri opts req hp)
 
 theorem udp_parseAnnounce_peerOK (lower : Bytes → Bytes) (pkt src : Bytes) (v6 : Bool) (opts : ParseOpts) (r : AnnReq)
     (h : Udp.parseAnnounce lower pkt src v6 opts = .ok r) : PeerOK r.peer := by
@@ -415,9 +411,7 @@ theorem udp_step (M : StoreModel σ) (mac : Udp.Mac) (lower : Bytes → Bytes) (
     · rename_i ctx resp _
       simp only
       unfold afterAnnounce
-      split
-      · exact hg
-      · exact good_swarmInteraction M now m hg _ req hreq
+      exact good_swarmInteraction M now m hg _ req hreq
     · exact hg
   · exact hg
 
